@@ -137,7 +137,7 @@ fn validate_cases(b: &Base, r: Option<&LayoutRules>) -> Vec<Case> {
             let rr = dp[ratio].as_u64().unwrap_or(0);
             let copies: u64 = if on && rr > 0 && b.log_trace < 40 { (1u64 << b.log_trace) / rr } else { 0 };
             let bg = get_u64(&b.pi["segments"][seg]["begin_addr"]);
-            let mut usages: Vec<(&str, i128, bool)> = vec![("copies+1", (copies as i128 + 1) * cells as i128, false), ("stop<begin", -1, false), ("1 instance, flag off, ratio 2", cells as i128, true)];
+            let mut usages: Vec<(&str, i128, bool)> = vec![("copies+1", (copies as i128 + 1) * cells as i128, false), ("stop<begin", -1, false), ("1 instance, flag off, ratio = trace length", cells as i128, true)];
             if cells > 1 {
                 usages.push(("non-multiple", copies as i128 * cells as i128 + 1, false));
             }
@@ -149,7 +149,8 @@ fn validate_cases(b: &Base, r: Option<&LayoutRules>) -> Vec<Case> {
                 let mut p = b.pi.clone();
                 p["segments"][seg]["stop_ptr"] = hexu(stop as u64);
                 if force_off {
-                    p["dynamic_params"][ratio] = json!(2);
+                    // one instance would fit if the ratio alone decided (the other unit budgets are barely touched)
+                    p["dynamic_params"][ratio] = json!(1u64 << b.log_trace.min(40));
                 }
                 push(format!("{} usage {}", name, tag), &format!("dyn-builtin-usage:{}", tag.split(',').next().unwrap().replace(' ', "-")), p, b.log_trace);
             }
